@@ -13,7 +13,7 @@ LEVEL = ("Static structural conditions: leapfrog stage order by field effects (h
          "O(eps^2) energy error, volume preservation and exact conservation are numerical and not decided."
          " Added: the CPU backend carries no state between kernel calls except listed scratch buffers and identity-keyed memos (R8)."
          " Added (round 5): one leapfrog per kinetic-energy kind, path-sensitive on the kind - kinetic energy recomputed for Euclidean / ExactNormal, sibling half-steps read the same fields (R11); no two same-typed values handed down in each other's named position (R12, positive control); the ESH half-steps are the unclamped closed form (R13 = C18-R1 analysis)."
-         " Added (round 6): the Transformation entry points go through position map, density and gradient map on every path to their return (R4); the CPU backend hands scalars to the kernels unmodified (R14 = C17-K13).")
+         " Added (round 6): the Transformation entry points go through position map, density and gradient map on every path to their return (R4); the CPU backend hands scalars to the kernels unmodified (R14 = C17-K13); transformation_id returns the live id, not a remembered copy (R15).")
 EXPLANATION = "EFF field-effect summaries through helper functions (from the &/&mut signatures of the Math trait), dominance, path enumeration of the small transform functions, monomial normalisation of scalar arguments."
 TRUSTED = ["rustc nightly MIR", "nutsfacts extractor", "rules/eff.py, rules/c02.py", "Math trait contract: &mut Vector parameters are outputs, & Vector parameters inputs"]
 TECHNIQUE = "static analysis: field-effect summaries (EFF) + dominance + operation-sequence mirror comparison"
@@ -702,6 +702,52 @@ def r11(F, R):
     R.floor("C02-R11", 5)
 
 
+
+def r15(F, R, rid="C02-R15"):
+    R.rule(rid, "the transformation id is read where it lives: every `Transformation::transformation_id` returns, on every path, either an integer field of the "
+                "transformation itself (the counter R5 increments) or the answer of `Math::transformation_id(&self.params)` obtained in this very call - never a "
+                "copy kept elsewhere (a Cell / Option cache): R7 compares this id with the point's to decide whether the whitened coordinates are stale, and "
+                "parameters that are trained in place through `params_mut()` change the live id only")
+    n = 0
+    for b in F.trait_method_impls("Transformation", "transformation_id"):
+        defs = []
+        for bi, blk in enumerate(b.blocks):
+            if blk["cleanup"]:
+                continue
+            for st in blk["stmts"]:
+                if st["k"] == "assign" and st["pl"]["l"] == 0 and not st["pl"]["p"]:
+                    defs.append((b.rvalue_value(st["rv"]), st["span"]))
+            t = blk["term"]
+            if t["k"] == "call" and t["dest"]["l"] == 0 and not t["dest"]["p"]:
+                defs.append((("call", t["callee"].get("path", "?"), [b.value(a) for a in t["args"]], t["callee"]), t["span"]))
+        n += 1
+        key = b.path + ":live-id"
+        site = "%s @%s" % (b.path, b.loc())
+        bad = []
+        for (v, sp) in defs:
+            x = v
+            while x[0] in ("deref", "ref", "cast"):
+                x = x[1]
+            if x[0] == "field":
+                y = x[1]
+                while y[0] in ("deref", "ref"):
+                    y = y[1]
+                if y[0] == "arg" and y[1] == 1:
+                    continue
+            names = [c[1] for c in vt_walk(v) if c[0] == "call"]
+            if any(strip_generics(str(p)).endswith("Math::transformation_id") for p in names) and not any(
+                    strip_generics(str(p)).split("::")[-2:-1] and strip_generics(str(p)).split("::")[-2] in ("Cell", "RefCell", "OnceCell", "OnceLock") for p in names):
+                continue
+            bad.append((vt_str(v)[:80], sp))
+        if not defs:
+            R.bad(rid, key, site, "cannot find the returned value")
+        elif bad:
+            R.bad(rid, key, "%s @%s" % (b.path, loc(bad[0][1])), "a path returns `%s`: not a field of the transformation and not a fresh Math::transformation_id(&self.params) - "
+                  "an id that is remembered goes stale when the parameters are changed in place" % bad[0][0])
+        else:
+            R.ok(rid, key, site, "returned on every path: %s" % ", ".join(sorted({vt_str(v)[:50] for v, _ in defs})))
+    R.floor(rid, 3)
+
 def run(F, R, config="all"):
     r1_r2(F, R)
     r3_r4(F, R)
@@ -718,6 +764,7 @@ def run(F, R, config="all"):
     r10(F, R)
     r11(F, R)
     r12(F, R)
+    r15(F, R)
     # the ESH half-steps: closed form, renormalised, unclamped (C18-R1 analysis)
     from . import c18
     K.borrow_rule(R, lambda sub: c18.r1(F, sub), "C02-R13", "the microcanonical half-steps are the closed-form ESH update: computed from the gradient they are given, "
